@@ -61,7 +61,7 @@ type Broker struct {
 	Sessions map[string]*Session
 	Deliv    []Delivery
 	Connects int
-	Resets   int // sessions with open state discarded (clean session)
+	Resets   int      // sessions with open state discarded (clean session)
 	ProtoErr []string // protocol violations by the client
 	st       map[int]*bconn
 	// SkipResend: when set and true for a message, its retransmission at a
